@@ -147,6 +147,8 @@ pub struct QFields {
     pub s: Field,
     /// u64 fast field, multi-valued: the value of `num`, and for every third value a second one (num + 1) after it
     pub mnum: Field,
+    /// the body text once more, indexed with term frequencies but without field norms
+    pub bnf: Field,
 }
 pub fn q_schema() -> (Schema, QFields) {
     let mut sb = Schema::builder();
@@ -160,7 +162,11 @@ pub fn q_schema() -> (Schema, QFields) {
     let ip = sb.add_ip_addr_field("ip", FAST | INDEXED);
     let s = sb.add_text_field("s", STRING | FAST);
     let mnum = sb.add_u64_field("mnum", FAST);
-    (sb.build(), QFields { uid, body, tag, num, inum, fnum, date, ip, s, mnum })
+    let bnf = sb.add_text_field(
+        "bnf",
+        TextOptions::default().set_indexing_options(TextFieldIndexing::default().set_tokenizer("default").set_fieldnorms(false).set_index_option(IndexRecordOption::WithFreqs)),
+    );
+    (sb.build(), QFields { uid, body, tag, num, inum, fnum, date, ip, s, mnum, bnf })
 }
 
 /// The materialised corpus: model documents (with uid) and liveness.
@@ -185,7 +191,9 @@ pub fn to_doc(uid: u64, d: &QDoc, f: &QFields) -> TantivyDocument {
     let mut t = TantivyDocument::new();
     t.add_u64(f.uid, uid);
     for v in &d.body {
-        t.add_text(f.body, v.iter().map(|w| word(*w)).collect::<Vec<_>>().join(" "));
+        let text = v.iter().map(|w| word(*w)).collect::<Vec<_>>().join(" ");
+        t.add_text(f.bnf, &text);
+        t.add_text(f.body, text);
     }
     for tag in &d.tags {
         t.add_text(f.tag, format!("t{tag}"));
@@ -290,6 +298,8 @@ pub enum B {
 pub enum Q {
     /// term on body; record option 0 basic, 1 freqs, 2 positions
     Term(u8, u8),
+    /// term (with frequencies) on `bnf`: the body text indexed with frequencies but without field norms
+    TermNf(u8),
     Tag(u8),
     Phrase { words: Vec<u8>, slop: u8 },
     /// phrase whose last element is a prefix (index into PREFIXES)
@@ -319,6 +329,7 @@ pub fn leaf_strategy() -> BoxedStrategy<Q> {
     prop_oneof![
         10 => (w(), 0u8..3).prop_map(|(a, b)| Q::Term(a, b)),
         3 => (0..NUM_TAGS).prop_map(Q::Tag),
+        1 => w().prop_map(Q::TermNf),
         4 => (prop::collection::vec(0u8..6, 2..5), 0u8..4).prop_map(|(words, slop)| Q::Phrase { words, slop }),
         2 => (prop::collection::vec(0u8..6, 1..3), 0u8..PREFIXES.len() as u8).prop_map(|(words, prefix)| Q::PhrasePrefix { words, prefix }),
         5 => (rfield.clone(), bound(-25, 45), bound(-25, 45)).prop_map(|(f, a, b)| Q::Range(f, a, b)),
@@ -461,6 +472,7 @@ pub fn build_query(q: &Q, f: &QFields) -> Result<Box<dyn Query>, Failure> {
             },
         )),
         Q::Tag(t) => Box::new(TermQuery::new(Term::from_field_text(f.tag, &format!("t{t}")), IndexRecordOption::Basic)),
+        Q::TermNf(w) => Box::new(TermQuery::new(Term::from_field_text(f.bnf, &word(*w)), IndexRecordOption::WithFreqs)),
         Q::Phrase { words, slop } => {
             let mut p = PhraseQuery::new(words.iter().map(|w| body_term(f, *w)).collect());
             p.set_slop(*slop as u32);
@@ -663,6 +675,7 @@ impl Evaluator {
         match q {
             Q::Term(w, _) => d.has_word(*w),
             Q::Tag(t) => d.tags.contains(t),
+            Q::TermNf(w) => d.has_word(*w),
             Q::Phrase { words, slop } => phrase_match(&d.positions(), &words.iter().map(|w| vec![*w]).collect::<Vec<_>>(), *slop as i64),
             Q::PhrasePrefix { words, prefix } => {
                 let mut alts: Vec<Vec<u8>> = words.iter().map(|w| vec![*w]).collect();
@@ -783,7 +796,7 @@ pub fn shape_labels(q: &Q, out: &mut BTreeSet<String>) {
             let nm = cl.iter().filter(|c| c.0 == 0).count();
             let ns = cl.iter().filter(|c| c.0 == 1).count();
             let nn = cl.iter().filter(|c| c.0 == 2).count();
-            let all_terms = cl.iter().all(|c| matches!(c.1, Q::Term(..) | Q::Tag(_)));
+            let all_terms = cl.iter().all(|c| matches!(c.1, Q::Term(..) | Q::Tag(_) | Q::TermNf(_)));
             if ns >= 2 && nm == 0 && nn == 0 {
                 out.insert(if all_terms { "bool:term_union".into() } else { "bool:union".into() });
             }
@@ -838,6 +851,9 @@ pub fn shape_labels(q: &Q, out: &mut BTreeSet<String>) {
         }
         Q::Tag(_) => {
             out.insert("leaf:tag".into());
+        }
+        Q::TermNf(_) => {
+            out.insert("leaf:term_no_fieldnorms".into());
         }
         Q::Phrase { slop, .. } => {
             out.insert(if *slop > 0 { "leaf:phrase_slop".into() } else { "leaf:phrase".into() });
